@@ -149,19 +149,23 @@ class Scratch:
         return self.build_variant("dflt")
 
     def build_cli(self, cflags=SAN):
+        """bin/eav (the CLI) built by `make app` with sanitizers; returns (exe, libdir)."""
         d = self._copy("cli", with_data=False)
         env = dict(os.environ)
         for k in ("CFLAGS", "CPPFLAGS", "LDFLAGS", "MAKEFLAGS", "DEFS"):
             env.pop(k, None)
-        run(["make", "app-static", "CC=clang", "CFLAGS=" + cflags, "LDFLAGS=" + cflags], cwd=d, env=env)
-        exe = os.path.join(d, "bin", "eav.static")
-        if not os.path.exists(exe):
-            sys.stderr.write("bin/eav.static missing after make app-static\n")
+        run(["make", "app", "CC=clang", "CFLAGS=" + cflags, "LDFLAGS=" + cflags], cwd=d, env=env)
+        exe = os.path.join(d, "bin", "eav")
+        lib = os.path.join(d, "libeav.so")
+        if not os.path.exists(exe) or not os.path.exists(lib):
+            sys.stderr.write("bin/eav or libeav.so missing after make app\n")
             raise SystemExit(2)
-        out = os.path.join(self.dir, "eav_cli")
-        shutil.copy2(exe, out)
+        outd = os.path.join(self.dir, "cli")
+        os.makedirs(outd, exist_ok=True)
+        shutil.copy2(exe, os.path.join(outd, "eav"))
+        shutil.copy2(lib, os.path.join(outd, "libeav.so"))
         shutil.rmtree(d, ignore_errors=True)
-        return out
+        return os.path.join(outd, "eav"), outd
 
 
 if __name__ == "__main__":
